@@ -164,4 +164,121 @@ theorem inv_flag_to_fj {c : Ctx} {w : Wid} {s : Store} {chain : List Block} {q :
     | nil => rw [hl] at hr'; cases hr'
     | cons _ _ => rfl
 
+-- ------------------------------------------------------------------ the follower's steps keep `FJ`
+
+/-- **disconnecting the tip block**: above the ghost height `w`'s half is untouched, at it both halves are undone and
+    the ghost height becomes the new tip; `w`'s status (no cursor) is left alone by the pull-back -/
+theorem fj_disc {c : Ctx} {w : Wid} (hKN : KeysNodup c.own) {S : List Block}
+    (hgS : GoodChain S) (hvS : ChainValid c.own S) (hkn : ∀ x ∈ S, AMap.get c.node.known x.id = some x)
+    {s : Store} {k : Nat} (hk0 : 0 < k) (hkl : k < S.length) (hI : FJ c w s (S.take (k + 1))) :
+    ∃ s', disconnectBlock c s k = .ok s' ∧ FJ c w s' (S.take k) := by
+  have hx : S[k]? = some S[k] := List.getElem?_eq_getElem hkl
+  have e := take_succ_of_get hx
+  have hbh : S[k].height = k := hgS.height_at hx
+  have hne : S.take k ≠ [] := by
+    intro h0
+    have := congrArg List.length h0
+    rw [List.length_take, List.length_nil] at this
+    omega
+  have hV : ChainValid c.own (S.take k ++ [S[k]]) := by rw [← e]; exact chainValid_take hvS _
+  have hH : HeightsOK (S.take k ++ [S[k]]) := by rw [← e]; exact heightsOK_take hgS.heights _
+  have hknb := hkn _ (mem_of_get hx)
+  have hlk : (S.take k).length = k := by rw [List.length_take]; omega
+  rw [e] at hI
+  obtain ⟨k0, hle, hS, hst, hAR, hne'⟩ := hI
+  simp only [List.length_append, List.length_singleton, hlk] at hle
+  by_cases hat : k0 = k
+  · -- at the ghost height
+    subst hat
+    obtain ⟨s', hd, hS', _, hkeep, hr'⟩ := disconnect_scanJS_at' hKN hV hH hne hknb (by rw [hlk]; exact hS) hAR
+    rw [hbh] at hd
+    refine ⟨s', hd, _, by rw [hlk]; omega, hS', hkeep w _ hst rfl, ?_, ?_⟩
+    · rw [hr']; exact hAR
+    · rw [hr']; exact hne'
+  · obtain ⟨s', hd, hS', _, hkeep, hr'⟩ := disconnect_scanJS_above' hKN hV hH hne hknb hS (by rw [hlk]; omega) hAR
+    rw [hbh] at hd
+    refine ⟨s', hd, k0, by rw [hlk]; omega, hS', hkeep w _ hst rfl, ?_, ?_⟩
+    · rw [hr']; exact hAR
+    · rw [hr']; exact hne'
+
+/-- **connecting the next block of the node's chain**: booked for the ready wallets only, the ghost height stays -/
+theorem fj_connect {c : Ctx} {w : Wid} (hKN : KeysNodup c.own)
+    (hgN : GoodChain c.node.chain) (hvN : ChainValid c.own c.node.chain) {s : Store} {h : Nat} {b : Block}
+    (hb : c.node.chain[h + 1]? = some b) (hI : FJ c w s (c.node.chain.take (h + 1))) :
+    ∃ s' conf, filterBlock c s (readyWallets s c.wallets) b = .ok (s', conf) ∧
+      FJ c w s' (c.node.chain.take (h + 2)) ∧ s'.status = s.status := by
+  have hlt : h + 1 < c.node.chain.length := (List.getElem?_eq_some_iff.1 hb).1
+  have hlen : (c.node.chain.take (h + 1)).length = h + 1 := by rw [List.length_take]; omega
+  have e := take_succ_of_get hb
+  have hnode : c.node.chain = c.node.chain.take (h + 1) ++ b :: c.node.chain.drop (h + 2) := by
+    have : c.node.chain.drop (h + 1) = b :: c.node.chain.drop (h + 2) := by
+      rw [List.drop_eq_getElem?_toList_append, hb]; rfl
+    rw [← this, List.take_append_drop]
+  have hnr := fj_notReady hI c.wallets
+  obtain ⟨k, hle, hS, hst, hAR, hne⟩ := hI
+  obtain ⟨s', conf, hfb, hS', hst', _⟩ := connect_scanJS' hKN ⟨hvN, hgN.heights⟩ hnode hS hnr hle hAR hne
+  refine ⟨s', conf, hfb, ⟨k, ?_, ?_, by rw [hst']; exact hst, ?_, ?_⟩, hst'⟩
+  · rw [List.length_take]; rw [hlen] at hle; omega
+  · rw [show h + 2 = h + 1 + 1 from rfl, e]; exact hS'
+  · rw [readyWallets_congr hst']; exact hAR
+  · rw [readyWallets_congr hst']; exact hne
+
+theorem fj_connSpec {c : Ctx} {w : Wid} (hKN : KeysNodup c.own)
+    (hgN : GoodChain c.node.chain) (hvN : ChainValid c.own c.node.chain) :
+    ConnSpec c (FJ c w) (fun _ => True) := by
+  have key : ∀ (d : Nat) (s : Store) (f B : Nat) (ready : List Wid) (added : List (Nat × List TxId)), B - f = d → f ≤ B →
+      B < c.node.chain.length → FJ c w s (c.node.chain.take (f + 1)) → ready = readyWallets s c.wallets →
+      ∃ s' added', connectAll c ready ((c.node.chain.take (B + 1)).drop (f + 1)) s added = .ok (s', added') ∧
+        FJ c w s' (c.node.chain.take (B + 1)) := by
+    intro d
+    induction d with
+    | zero =>
+      intro s f B ready added hd hfB _ hI _
+      have : f = B := by omega
+      subst this
+      refine ⟨s, added, ?_, hI⟩
+      rw [List.drop_take]; simp [connectAll]
+    | succ d ih =>
+      intro s f B ready added hd hfB hBl hI hr
+      have hx : c.node.chain[f + 1]? = some c.node.chain[f + 1] := List.getElem?_eq_getElem (by omega)
+      rw [seg_cons hx (by omega)]
+      obtain ⟨s1, conf, hfb, hI1, hst1⟩ := fj_connect hKN hgN hvN hx hI
+      obtain ⟨s2, added2, h2, hI2⟩ := ih s1 (f + 1) B ready (added ++ [(c.node.chain[f + 1].height, conf)]) (by omega)
+        (by omega) hBl hI1 (by rw [hr]; exact (readyWallets_congr hst1 c.wallets).symm)
+      refine ⟨s2, added2, ?_, hI2⟩
+      unfold connectAll
+      rw [hr, hfb]
+      simp only [M_ok_bind]
+      rw [← hr]
+      exact h2
+  intro s f B hfB hBl hI _
+  obtain ⟨s', added', h1, h2⟩ := key (B - f) s f B _ [] rfl hfB hBl hI rfl
+  exact ⟨s', added', h1, h2, trivial⟩
+
+/-- **a notification for any block of the node's best chain while `w` is flagged for removal** (extension,
+    reorganisation above / at / below the ghost height), the other wallets followed live -/
+theorem fj_processBlock {c : Ctx} {w : Wid} (hKN : KeysNodup c.own) {S : List Block}
+    (hgN : GoodChain c.node.chain) (hgS : GoodChain S) (hgen : S[0]? = c.node.chain[0]?)
+    (hinj : IdInj (S ++ c.node.chain)) (hvN : ChainValid c.own c.node.chain) (hvS : ChainValid c.own S)
+    (hkn : ∀ x ∈ S, AMap.get c.node.known x.id = some x)
+    {s : Store} {v : Vol} {b : Block} (hI : FJ c w s S) (hb : c.node.chain[b.height]? = some b)
+    (hv : v.best = tipMeta S) (hg0 : b.height = 0 → b.prev ≠ (tipMeta S).hash) :
+    ∃ s' v', processBlock c s v b = (s', v', true) ∧ FJ c w s' (c.node.chain.take (b.height + 1)) ∧
+      v'.best = tipMeta (c.node.chain.take (b.height + 1)) := by
+  have H : RIface c S (FJ c w) (fun _ => True) :=
+    ⟨hgN, hgS, hgen, hinj,
+     fun {s n k x} hI hk hx => by
+       rw [fj_sync hI, syncOf, getElem?_take_of_lt hk, hx]; rfl,
+     fun {s k} hk0 hkl hI _ => by
+       obtain ⟨s', h1, h2⟩ := fj_disc hKN hgS hvS hkn hk0 hkl hI
+       exact ⟨s', h1, h2, trivial⟩⟩
+  obtain ⟨s', v', h1, h2, _, h4, _⟩ := processBlock_reachesI H (fj_connSpec hKN hgN hvN) hI hb hv hg0 trivial
+    (by
+      intro k hS hk
+      rw [hS] at hI
+      have hb' : c.node.chain[k + 1]? = some b := by rw [← hk]; exact hb
+      obtain ⟨s', conf, hfb, hI', _⟩ := fj_connect hKN hgN hvN hb' hI
+      exact ⟨s', conf, hfb, hI', trivial⟩)
+  exact ⟨s', v', h1, h2, h4⟩
+
 end MW.Lemmas.RemoveFlagged
